@@ -56,6 +56,8 @@ class ModbusDevice:
         self.silent = False
         self.fragment_at = None
         self.drop_at = set()
+        self.mbap_length = 'correct'
+        self.refuse_connect_at = set()
         self.kern = None
         self.connects = []
         self.sent = []
@@ -65,7 +67,10 @@ class ModbusDevice:
         return any(lo <= a <= hi for a in range(start, start + n) for lo, hi in self.refused)
 
     def on_connect(self):
+        k = len(self.connects)
         self.connects.append(self.kern.now)
+        if k in self.refuse_connect_at:
+            return 'refused', D0          # transient connect failure (fault injection by connect index)
         return 'ok', D0
 
     def pdu(self, rq):
@@ -108,6 +113,10 @@ class ModbusDevice:
         pdu = self.pdu(rq)
         if sock.kind == 'tcp':
             f = wire.mbap(struct.pack('>H', rq['tx']), rq['unit'], pdu)
+            if self.mbap_length != 'correct':
+                # GoodWe firmware is known to fill the MBAP length field unreliably (the library ignores it on purpose)
+                ln = {'bytecount': max(len(pdu) - 2, 0), 'zero': 0, 'echo6': 6, 'plus7': len(pdu) + 8}[self.mbap_length]
+                f = f[:4] + struct.pack('>H', ln) + f[6:]
         else:
             f = wire.rtu_frame(rq['unit'], pdu)
         dt = self.delay_fn(self, rq) if self.delay_fn else self.latency
